@@ -24,7 +24,7 @@ ASSUMPTIONS = ["time axes strictly increasing with whole-second steps (the prope
                "geographiclib.Geodesic.WGS84.Inverse called per pair is the distance ground truth; 1e-9 guard band"]
 EXHAUSTIVE_ALL = False
 
-CARRIERS = ["dt64ns", "dt64s", "epoch-int", "epoch-float", "epoch-list", "dtindex", "pydatetime", "series"]
+CARRIERS = ["dt64ns", "dt64s", "epoch-int", "epoch-float", "epoch-list", "dtindex", "pydatetime", "series", "epoch-int32", "epoch-uint32"]
 
 
 def roc_case(ctx, x, t, thr, carrier, tag) -> None:
